@@ -175,7 +175,11 @@ func (w *vW) hooks() {
 				w.nballoc++
 			}
 			if verifrt.Param("zeroalloc", 1) == 1 {
-				verifrt.Assume(n == 0 || verifrt.BytesEq(w.d.Peek(n), vZeroBlock))
+				if w.symaddr {
+					verifrt.Assume(n == 0 || verifrt.BytesEq(w.d.Peek(n), vZeroBlock))
+				} else if n != 0 {
+					w.d.AssumeZero(n)
+				}
 			}
 		} else {
 			if w.symaddr {
